@@ -212,6 +212,7 @@ type vfIntent struct {
 	Present   *vfPresent
 	Adm       *vfAdmReq
 	Probe     *vfProbe
+	Aws       *vfAwsReq
 }
 
 type vfCertReq struct {
